@@ -71,6 +71,11 @@ def run(ctx):
     big = [("usq", ["1030"]), ("ring", ["1,8191,8192,8193,20000,1,8192,8192,8192,5"]), ("ring", ["20000,20000,20000,20000"]), ("ring", ["8192,8192,8192,8192,8192,8192,8192"]),
            ("pcq", ["3", "40,40", "30,50"])]
     for kind, args in big:
+        # fixed policies first: always the last enabled thread (the consumer side stays caught up and runs inside every
+        # post/continue window), strict alternation, always the first; then seeded random schedules
+        for ch in (["hi"], ["alt"], []):
+            rc, trace, branch, result, err = run_sched(exe, [kind] + args, ch)
+            jobs.append((kind, args, (ch, rc, trace, result, err)))
         for k in range(6 if ctx.tier == "quick" else 60):
             ch = ["r%d" % (ctx.seed * 100 + k)]
             rc, trace, branch, result, err = run_sched(exe, [kind] + args, ch)
